@@ -1114,14 +1114,17 @@ func c17Parallel(n, workers int, f func(i int)) {
 			defer wg.Done()
 			for i := range ch {
 				f(i)
+				guardProgress.Add(1)
 			}
 		}()
 	}
-	for i := 0; i < n; i++ {
-		ch <- i
-	}
-	close(ch)
-	wg.Wait()
+	go func() { // fed from a goroutine of its own: with every worker stuck the guard must still be reached
+		for i := 0; i < n; i++ {
+			ch <- i
+		}
+		close(ch)
+	}()
+	guardedWait(&wg)
 }
 
 func runC17(c *Ctx) int {
